@@ -119,16 +119,31 @@ def Res.ofExcept {α} : Except EvalErr α → Res α
 
 /-! ### Big-segment status -/
 
-/-- `getBigSegmentsStatusPriority` -/
+/-- `getBigSegmentsStatusPriority`: every string other than the three problem constants — HEALTHY,
+an unknown string — falls into Go's `default: return 0`. -/
 def Status.priority : Status → Nat
-  | .healthy => 0 | .stale => 1 | .storeError => 2 | .notConfigured => 3
+  | .healthy => 0 | .stale => 1 | .storeError => 2 | .notConfigured => 3 | .other _ => 0
 
-/-- `computeUpdatedBigSegmentsStatus` -/
+/-- `getBigSegmentsStatusPriority` of a possibly empty status string: `""` is also `default: 0`. -/
+def statusPriority : Option Status → Nat
+  | none => 0
+  | some s => s.priority
+
+/-- `computeUpdatedBigSegmentsStatus`; `none` is the Go status `""`.
+`old != "" && priority(old) > priority(new)` keeps `old`, everything else returns `new` — in
+particular an `old` of priority 0 (HEALTHY, an unknown string) is REPLACED by `new = ""`, and among
+statuses of equal priority the later one wins (`updateStatus_eq`). -/
 def updateStatus (old : Option Status) (new : Option Status) : Option Status :=
   match old, new with
   | some o, some n => if o.priority > n.priority then some o else some n
   | some o, none => if o.priority > 0 then some o else none
   | none, n => n
+
+/-- The Go text literally: `if old != "" && prio(old) > prio(new) { return old }; return new`
+(the `old != ""` test is redundant because `prio("") = 0`). -/
+theorem updateStatus_eq (old new : Option Status) :
+    updateStatus old new = if statusPriority old > statusPriority new then old else new := by
+  cases old <;> cases new <;> simp [updateStatus, statusPriority]
 
 /-- `makeBigSegmentRef` -/
 def bigSegmentRef (s : Segment) : String :=
@@ -229,7 +244,7 @@ def bigSegMembership (env : Env) (key : String) (st : St) : Membership × St :=
       (a.membership, { st with
         bsQueries := st.bsQueries ++ [key]
         cache := st.cache ++ [(key, a.membership)]
-        status := updateStatus st.status (some a.status) })
+        status := updateStatus st.status a.status })
 
 /-- One level of `segmentContainsContext`, recursing through `rec`. -/
 def segBody (rec : SegRec) (env : Env) (s : Segment) (chain : List String) (st : St) :
